@@ -35,16 +35,12 @@ func style(c Case) safehtml.Style {
 	return safehtml.StyleFromProperties(p)
 }
 
-// stripLeadingCDC removes leading whitespace and CDC/CDO tokens, which "parse a stylesheet" skips at top level.
+// stripLeading removes leading whitespace, which "parse a stylesheet" skips at top level.
 func stripLeading(s string) string {
 	for {
 		t := strings.TrimLeft(s, " \t\n")
-		switch {
-		case strings.HasPrefix(t, "-->"):
-			t = t[3:]
-		case strings.HasPrefix(t, "<!--"):
-			t = t[4:]
-		}
+		// ("-->" and "<!--" in front of the rule are dropped by a style sheet parser as well, but then the prelude
+		// is not the selector that was given: not tolerated here)
 		if t == s {
 			return s
 		}
@@ -176,7 +172,7 @@ func check(c Case) evid.Outcome {
 	return o
 }
 
-var selDict = []string{"a-url(b)", "my_url(x)", "-x-image-url(", "xurl(", "a-url(b) url(x'){}*{color:red}')", "aurl(b) URL(x\"){}p{}z{\"y)", " url(", "url (", "u\\72l(",
+var selDict = []string{"-->", "-->input", " --> -->a", "a-->b", "--", "a-url(b)", "my_url(x)", "-x-image-url(", "xurl(", "a-url(b) url(x'){}*{color:red}')", "aurl(b) URL(x\"){}p{}z{\"y)", " url(", "url (", "u\\72l(",
 	"a", "div", ".c", "#id", "*", " ", ">", "+", "~", ",", ":hover", "::before", ":not(", ")", "(", "[", "]", "[href", "=", "^=", "$=", "|=", "\"", "'", "\"x\"", "'y'", "\"{\"", "'}'", "\"]\"", "\")\"", "\"\\\"\"", "'\\''", "\\", "\\\n", "\\\r\n", "\\\f", "url(", "URL(", "Url( ", "url(x", "url(\"", "url('", "url(x\")", "url(\"x\")", "expression(", "var(", "{", "}", ";", "@", "@media", "@import", "/*", "*/", "//", "<", "<!--", "-->", "</style>", "\n", "\r", "\f", "\t", "\x00", "é", "--x", "-", "_", "$", "^", "|", "!", "&", "%", "a[href=\"x\"]", "a:not(.b)", "input[value^=a]", "){}", "{}", "z{", "\"){}input[value^=a]{background:url(//evil/a)}z{\"", "y)"}
 
 func gen(t *rapid.T) Case {
